@@ -13,7 +13,7 @@ ID = 'C05'
 CRATES = ['jj-lib', 'jj-core']
 NATIVE = 'c05'
 BOUNDS = {
-    'quick': '2-sided conflicts (3 terms), every marker style (diff, diff-experimental, snapshot, git), unlabeled and labeled; each term one line of one symbolic byte (LF / no final newline on a side / CRLF files / an empty side); one term a run of 7 copies of a symbolic byte (marker look-alike); per job at most ONE symbolic byte is unconstrained (any value except CR/LF), the others are any non-marker non-whitespace byte',
+    'quick': '2-sided conflicts (3 terms), every marker style (diff, diff-experimental, snapshot, git), unlabeled and labeled; each term one line of one symbolic byte (LF / no final newline on a side / CRLF files / an empty side); one term a run of 7 copies of a symbolic byte (marker look-alike); per job at most ONE symbolic byte is unconstrained (any value except CR/LF), the others are any non-marker non-whitespace byte; the no-final-newline / empty-side / CRLF shapes only with all bytes plain in the quick tier',
     'thorough': 'adds two-line terms and 3-sided conflicts (5 terms) for snapshot and diff styles',
 }
 ASSUMPTIONS = [
@@ -22,7 +22,7 @@ ASSUMPTIONS = [
     'the round trip is claimed only when merge_hunks() reports a conflict (a resolved merge materializes to its content, which is checked instead)',
     'fmt machinery is executed through the decoded template byte-code of the pinned nightly; Display of str/String/BString/integers only',
 ]
-BUDGET = {'quick': 280, 'thorough': 3000}
+BUDGET = {'quick': 900, 'thorough': 3000}
 F = 'lib/src/conflicts.rs'
 STYLES = ['Diff', 'DiffExperimental', 'Snapshot', 'Git']
 
@@ -41,7 +41,9 @@ def jobs(tier):
                     runs = [k for k, kind in enumerate(kk for t in sh for kk in t) if kind[0] == 'run']
                     if runs and free not in runs: continue                  # a look-alike run is the unconstrained symbol of its job
                     name = 'rt-' + '_'.join(''.join(f'{k[0]}{k[1]}{k[2][0]}' for k in t) or 'e' for t in sh) + f'-{style}' + ('-labels' if lab else '') + (f'-free{free}' if free is not None else '-plain')
-                    out.append(dict(name=name, shape=[list(t) for t in sh], style=style, labels=lab, free=free, rung=0 if si == 0 else (1 if si < 6 else 2), weight=3 + (30 if free is not None else 0)))
+                    in_quick = si == 0 or bool(runs) or (si in (1, 2, 3, 5) and free is None)
+                    if tier == 'quick' and not in_quick: continue
+                    out.append(dict(name=name, shape=[list(t) for t in sh], style=style, labels=lab, free=free, rung=0 if si == 0 else (1 if (runs or free is None) else 2), weight=3 + (30 if free is not None else 0)))
     return out
 
 def run_job(ix, job, tier):
